@@ -310,8 +310,9 @@ func (s *Updater) addBackOwnedItems(merged, pruned *typed.TypedValue, prunedVers
 	// is only owned at another version: it can only come back once that item is
 	// back. With more than one version, repeat the passes until nothing more is
 	// added back, so that the result does not depend on the order of the versions.
-	for changed := true; changed; {
-		changed = false
+	var previous *typed.TypedValue
+	for {
+		changed := false
 		for _, version := range versions {
 			var added bool
 			merged, pruned, added, err = s.addBackOwnedItemsForVersion(merged, pruned, version, managedAtVersion[version])
@@ -320,9 +321,16 @@ func (s *Updater) addBackOwnedItems(merged, pruned *typed.TypedValue, prunedVers
 			}
 			changed = changed || added
 		}
-		if len(versions) < 2 {
+		if !changed || len(versions) < 2 {
 			break
 		}
+		// A pass can report a change that a later pass of the same round undoes
+		// (an empty list is part of the object but of no field set): stop as soon
+		// as a whole round leaves the object as the previous round left it.
+		if previous != nil && value.EqualsUsing(value.NewFreelistAllocator(), previous.AsValue(), pruned.AsValue()) {
+			break
+		}
+		previous = pruned
 	}
 	return pruned, nil
 }
